@@ -28,6 +28,18 @@ def run(ctx):
                     jobs.append((exe, ["perm", n, 1 if (t and main) else 0], name, 9))
             for alg in range(3):
                 jobs.append((exe, ["aead", alg, 1 if (t and main) else 0], name, 2))
+    # the AVR-only direct-XOR masked-word back end, compiled stand-alone for the host with the selecting macros forced
+    import os
+    for m in (2, 3):
+        try:
+            src = os.path.join(build.REPO, "src", "masking", "ascon-masked-word-direct.c")
+            exe = build.build_prog("c10_direct_m%d" % m, ["harness/c10.c", src], cc="gcc", opt="-O1",
+                                   extra=["-D__AVR__", "-D__AVR_ARCH__=5", "-DASCON_MASKED_MAX_SHARES=%d" % m, "-DC10_WORDS_ONLY", "-I" + os.path.join(build.REPO, "src"),
+                                          "-I" + os.path.join(build.REPO, "src", "ascon"), "-I" + os.path.join(common.VERIF, "emu", "stubs"), "-DVERIF_TREE=\"%s\"" % build.tree_hash()])
+            jobs.append((exe, ["words"], "direct-word-m%d" % m, 3))
+            ctx.configs.append("direct-xor masked-word back end (AVR source on the host) max shares %d" % m)
+        except build.BuildError as e:
+            ctx.fail("build-error:direct-word-m%d" % m, str(e)[-600:])
     jobs.sort(key=lambda j: -j[3])
     common.parallel(lambda j: common.run_harness(ctx, j[0], j[1], label=j[2]), jobs)
     ctx.assumptions += [
